@@ -27,7 +27,7 @@ import json
 import logging
 import sys
 from pathlib import Path
-from typing import Any, Dict, List, Set, Tuple
+from typing import Any, Dict, List, Optional, Set, Tuple
 
 # -----------------------------------------------------------------------------
 # 📥 Project-Specific Imports
@@ -859,6 +859,8 @@ def run_generation_workflow(
     _verify_or_refuse(
         configs=configs,
         logic_code=logic_code,
+        runner_code=runner_code,
+        file_count=args.file_count,
         template=template,
         strict=not getattr(args, "no_verify", False),
     )
@@ -931,17 +933,34 @@ def _verify_or_refuse(
     logic_code: str,
     template: str,
     strict: bool,
+    runner_code: Optional[str] = None,
+    file_count: int = 2,
 ) -> None:
     """Prove the generated code rebuilds the source machine, or refuse.
 
     Only single-machine generation is verified structurally: with multiple
     configs the emitted module composes several machines and there is no
-    single expected machine to compare against. Syntax is always checked.
+    single expected machine to compare against. Syntax is always checked,
+    for every file that is about to be written: the logic module, the runner
+    and, for single-file output, the merged module.
 
     Raises:
         SystemExit: With status 1 if the generated code is not faithful.
     """
     problems: List[str] = []
+
+    # 🔍 The runner (and the merged single file) interpolate names from the
+    #    machine JSON as well -- event types, the machine id. They used to be
+    #    written without ever being parsed, so an event name containing a
+    #    line break produced a file that is not Python with exit status 0.
+    if runner_code is not None:
+        problems.extend(_syntax_problems("runner", runner_code))
+        if file_count == 1 and not problems:
+            problems.extend(
+                _syntax_problems(
+                    "combined file", _combined_output(logic_code, runner_code)
+                )
+            )
     machine_id = configs[0].get("id", "machine") if configs else "machine"
 
     # 🔍 Syntax is checked for EVERY template; structural comparison only
@@ -975,6 +994,18 @@ def _verify_or_refuse(
         logger.info(
             "🛡️ Verified: generated code rebuilds '%s' exactly.", machine_id
         )
+
+
+def _syntax_problems(label: str, code: str) -> List[str]:
+    """Return a one-element problem list if *code* is not valid Python."""
+    try:
+        ast.parse(code)
+    except SyntaxError as exc:
+        return [
+            f"generated {label} is not valid Python "
+            f"(line {exc.lineno}): {exc.msg}"
+        ]
+    return []
 
 
 def run_list_templates() -> None:
